@@ -54,7 +54,7 @@ func Encoder_encode(content string, ecLevel decoder.ErrorCorrectionLevel, hints 
 		if eci, ok := common.GetCharacterSetECIByName(fmt.Sprintf("%v", encodingHint)); ok {
 			encoding = eci.GetCharset()
 		} else {
-			return nil, gozxing.NewWriterException(encodingHint)
+			return nil, gozxing.NewWriterException("unsupported character set: %v", encodingHint)
 		}
 	}
 
